@@ -6,7 +6,13 @@ pid, name, needs = sys.argv[1], sys.argv[2], sys.argv[3]
 src = '/tmp/seed/' + pid
 dst = '/verif/seeded/' + name
 os.makedirs(dst, exist_ok=True)
-diff = subprocess.check_output(['git', '-C', src, 'diff', '--', 'src']).decode()
+# the agent's own patch.diff is authoritative (the worktree state may have been disturbed);
+# make sure it is what the worktree currently holds
+diff = open(src + '/patch.diff').read()
+cur = subprocess.check_output(['git', '-C', src, 'diff', '--', 'src']).decode()
+if cur.strip() != diff.strip():
+    print('ERROR: worktree state differs from patch.diff; restore it first')
+    sys.exit(1)
 open(dst + '/patch.diff', 'w').write(diff)
 if os.path.isdir(dst + '/demo'):
     shutil.rmtree(dst + '/demo')
